@@ -1,15 +1,130 @@
-(* C10: the OMEN generator enumerates each level exactly (work in progress). *)
+(* C10: the OMEN generator enumerates each level exactly, independently of the
+   shared lookup cache.  Model: theories/Omen.v (run by the correspondence on
+   the indexed table cp_fast G); specification: theories/OmenSpec.v. *)
 From Coq Require Import List Bool NArith ZArith.
-From Pcfg Require Import OmenSpec Omen OmenCorr.
+From Pcfg Require Import OmenSpec Omen OmenCorr OmenProofs OmenProofs2 OmenProofs3 OmenProofs4 OmenProofs5
+     OmenLevelProofs.
 From PcfgGen Require Import Consts_gen.
 Import ListNotations.
 
-Definition G0 : omen := mk_omen 2 omen_max_level [(0, [97]%N); (1, [98]%N)]
-  [(0, [97; 97]%N); (1, [97; 98]%N); (0, [98; 97]%N); (2, [98; 98]%N)] [1; 0; 0; 1].
+(* ---- side condition on the regenerated constants: _find_first_object scans
+   range(0, max_level) or range(0, max_level + 1), nothing else ---- *)
+Theorem C10_source_first_object_range : omen_first_object_extra <= 1.
+Proof. unfold omen_first_object_extra. repeat constructor. Qed.
 
-Theorem C10_example_runs :
-  match m_enumerate G0 (cp_fast G0) 20 cempty 1%Z with
-  | Some (l, Done, _, _) => strs_eqb l (level_strings G0 1%Z) && negb (is_nil l)
-  | _ => false
-  end = true.
-Proof. vm_compute. reflexivity. Qed.
+(* ---- the tables the model runs on are the tables of the files ---- *)
+Theorem C10_cp_fast_ok : forall G p l, cp_fast G p l = cp_at G p l.
+Proof. exact cp_fast_ok. Qed.
+
+Theorem C10_wf_tablesb_sound : forall G, wf_tablesb G = true -> wf_tables G.
+Proof. exact wf_tablesb_sound. Qed.
+
+(* ---- _fill_out_parse_tree with the memo table ---- *)
+Theorem C10_cache_ok_empty : forall cpf maxl, cache_ok cpf maxl cempty.
+Proof. exact cache_ok_empty. Qed.
+
+Theorem C10_fill_is_first : forall cpf maxl optmax k c p lvl,
+  1 <= k -> cache_ok cpf maxl c ->
+  fst (fill cpf maxl optmax k c p lvl) = hd_error (completions_f cpf maxl k p lvl) /\
+  cache_ok cpf maxl (snd (fill cpf maxl optmax k c p lvl)).
+Proof. exact fill_is_first. Qed.
+
+Theorem C10_fill_cache_independent : forall cpf maxl optmax k c1 c2 p lvl,
+  1 <= k -> cache_ok cpf maxl c1 -> cache_ok cpf maxl c2 ->
+  fst (fill cpf maxl optmax k c1 p lvl) = fst (fill cpf maxl optmax k c2 p lvl).
+Proof. exact fill_cache_independent. Qed.
+
+(* ---- GuessStructure.next_guess is the successor function of the canonical list ---- *)
+Theorem C10_gs_first_is_head : forall cpf maxl optmax c ip k target,
+  1 <= k -> cache_ok cpf maxl c ->
+  fst (gs_next cpf maxl optmax c ip k target []) = hd_error (completions_f cpf maxl k ip target).
+Proof. exact gs_first_is_head. Qed.
+
+Theorem C10_gs_next_is_successor : forall cpf maxl optmax c ip k target xs t t' ys,
+  1 <= k -> cache_ok cpf maxl c ->
+  completions_f cpf maxl k ip target = xs ++ t :: t' :: ys ->
+  fst (gs_next cpf maxl optmax c ip k target t) = Some t'.
+Proof. exact gs_next_is_successor. Qed.
+
+Theorem C10_gs_next_last_is_none : forall cpf maxl optmax c ip k target xs t,
+  1 <= k -> cache_ok cpf maxl c ->
+  completions_f cpf maxl k ip target = xs ++ [t] ->
+  fst (gs_next cpf maxl optmax c ip k target t) = None.
+Proof. exact gs_next_last_is_none. Qed.
+
+Theorem C10_NoDup_completions : forall cpf maxl k p lvl, NoDup (completions_f cpf maxl k p lvl).
+Proof. exact NoDup_compl. Qed.
+
+(* ---- the whole level: what the correspondence evaluates (m_enumerate) returns
+   exactly level_strings G T and then reports exhaustion; fuel never runs out;
+   the final cache is again sound ---- *)
+Theorem C10_exact : forall G T c starts,
+  cache_ok (cp_fast G) (og_max_level G) c ->
+  mc_starts (ip_at G) (ln_at G) (og_max_level G) omen_first_object_extra = Some starts ->
+  exists st' c',
+    m_enumerate G (cp_fast G) (S (length (level_strings G T))) c T = Some (level_strings G T, Done, st', c') /\
+    cache_ok (cp_fast G) (og_max_level G) c'.
+Proof.
+  exact (fun G => enumerate_exact G omen_optimizer_max_length omen_first_object_extra C10_source_first_object_range).
+Qed.
+
+Theorem C10_prefix_never_out_of_fuel : forall G T c n starts,
+  cache_ok (cp_fast G) (og_max_level G) c ->
+  mc_starts (ip_at G) (ln_at G) (og_max_level G) omen_first_object_extra = Some starts ->
+  exists st' c',
+    m_enumerate G (cp_fast G) n c T =
+      Some (firstn n (level_strings G T), run_status n (level_strings G T), st', c') /\
+    cache_ok (cp_fast G) (og_max_level G) c'.
+Proof.
+  exact (fun G => enumerate_prefix G omen_optimizer_max_length omen_first_object_extra C10_source_first_object_range).
+Qed.
+
+Theorem C10_run_status_is_not_out_of_fuel : forall n R, run_status n R <> OutOfFuel.
+Proof. exact run_status_not_oof. Qed.
+
+(* the constructor succeeds when some IP and some length sit below max_level *)
+Theorem C10_first_below_max_constructs : forall G,
+  first_below_max G ->
+  exists starts, mc_starts (ip_at G) (ln_at G) (og_max_level G) omen_first_object_extra = Some starts.
+Proof. exact (fun G => first_below_max_starts G omen_first_object_extra). Qed.
+
+(* second sentence of the property *)
+Theorem C10_cache_independent : forall G T c1 c2 n starts,
+  cache_ok (cp_fast G) (og_max_level G) c1 -> cache_ok (cp_fast G) (og_max_level G) c2 ->
+  mc_starts (ip_at G) (ln_at G) (og_max_level G) omen_first_object_extra = Some starts ->
+  option_map (fun r => fst (fst r)) (m_enumerate G (cp_fast G) n c1 T) =
+  option_map (fun r => fst (fst r)) (m_enumerate G (cp_fast G) n c2 T).
+Proof.
+  exact (fun G => enumerate_cache_independent G omen_optimizer_max_length omen_first_object_extra C10_source_first_object_range).
+Qed.
+
+(* ---- the list is the level set, each string once (proved by the C11/C18
+   owner over the same OmenSpec definitions) ---- *)
+Theorem C10_set : forall G, wf_tables G ->
+  forall s L, In s (level_strings G (Z.of_nat L)) <-> level_of G s = Some L.
+Proof. exact ol_level_strings_iff. Qed.
+
+Theorem C10_set_nonnegative : forall G, wf_tables G -> forall T s, In s (level_strings G T) -> (0 <= T)%Z.
+Proof. exact ol_level_strings_neg. Qed.
+
+Theorem C10_NoDup : forall G, wf_tables G -> forall T, NoDup (level_strings G T).
+Proof. exact ol_NoDup_level_strings. Qed.
+
+(* ---- R17: without first_below_max the as-coded scan refutes the property ---- *)
+Theorem C10_refuted_first_object : omen_first_object_extra = 0 -> omen_max_level = 10 ->
+  m_enumerate (G17 omen_max_level) (cp_fast (G17 omen_max_level)) 1 cempty 10%Z = None /\
+  level_strings (G17 omen_max_level) 10%Z = [[97%N; 97%N]] /\
+  wf_tablesb (G17 omen_max_level) = true.
+Proof. exact (first_object_refuted omen_first_object_extra omen_max_level omen_optimizer_max_length). Qed.
+
+(* ---- the hypotheses are satisfiable on a non-trivial instance ---- *)
+Theorem C10_example_hypotheses : wf_tables (Gex 10) /\ first_below_max (Gex 10).
+Proof. exact (conj Gex_wf Gex_first_below_max). Qed.
+
+Print Assumptions C10_exact.
+Print Assumptions C10_gs_next_is_successor.
+Print Assumptions C10_fill_is_first.
+Print Assumptions C10_cache_independent.
+Print Assumptions C10_set.
+Print Assumptions C10_NoDup.
+Print Assumptions C10_refuted_first_object.
